@@ -68,6 +68,14 @@ func runC13(p *core.Program, r *core.Report) {
 			case core.IsNilConst(a):
 				c, isCall := e.(*ssa.Call)
 				okPair = isCall && (core.CallName(c) == "fmt.Errorf" || core.CallName(c) == "errors.New")
+				if !okPair && freshOrNil(e, map[ssa.Value]bool{}) {
+					// an error handed up by an expanded validation helper: nil or fresh, returned under `!= nil`
+					for _, g := range core.Guards(ret.Block()) {
+						if rel, ok := core.AsRel(g); ok && rel.Op == token.NEQ && rel.X == e && core.IsNilConst(rel.Y) {
+							okPair = true
+						}
+					}
+				}
 				why = "error value is " + core.Describe(e)
 			case core.IsNilConst(e):
 				al, isAl := a.(*ssa.Alloc)
